@@ -5,9 +5,10 @@ are not in this table and are not renames are helpers introduced later; the load
 callers (gmsa/inline.py)."""
 import ast, json, os, sys
 sys.path.insert(0, os.path.dirname(os.path.dirname(os.path.abspath(__file__))))
-from gmsa.inline import fingerprint
+from gmsa.inline import fingerprint, digest
 root = sys.argv[1] if len(sys.argv) > 1 else "/repo"
 out = {}
+dig = {}
 for dp, dn, fn in os.walk(os.path.join(root, "gaddlemaps")):
     dn[:] = sorted(d for d in dn if d not in ("__pycache__", "data"))
     for f in sorted(fn):
@@ -21,14 +22,16 @@ for dp, dn, fn in os.walk(os.path.join(root, "gaddlemaps")):
         for st in tree.body:
             if isinstance(st, (ast.FunctionDef, ast.AsyncFunctionDef)):
                 out.setdefault("%s:%s" % (rel, st.name), fingerprint(st))
+                dig.setdefault("%s:%s" % (rel, st.name), []).append(digest(st))
             elif isinstance(st, ast.ClassDef):
                 for s2 in st.body:
                     if isinstance(s2, (ast.FunctionDef, ast.AsyncFunctionDef)):
                         k = "%s:%s.%s" % (rel, st.name, s2.name)
+                        dig.setdefault(k, []).append(digest(s2))
                         if k in out:       # property getter + setter share a name: merge
                             out[k]["idents"] = sorted(set(out[k]["idents"]) | set(fingerprint(s2)["idents"]))
                         else:
                             out[k] = fingerprint(s2)
-json.dump({"comment": "functions of the reference tree; see gmsa/inline.py", "functions": sorted(out), "fingerprints": out},
+json.dump({"comment": "functions of the reference tree; see gmsa/inline.py", "functions": sorted(out), "fingerprints": out, "digests": dig},
           open(os.path.join(os.path.dirname(os.path.dirname(os.path.abspath(__file__))), "gmsa", "known_functions.json"), "w"), indent=0, sort_keys=True)
 print(len(out), "functions")
